@@ -28,6 +28,7 @@ import PrologVerif.Proofs.RelUtf8
 import PrologVerif.Proofs.RelUnify
 import PrologVerif.Proofs.RelSld
 import PrologVerif.Proofs.RelAux
+import PrologVerif.Proofs.RelOnce
 namespace PrologVerif.C16
 open PrologVerif PrologVerif.Rel PrologVerif.Relations
 
@@ -1774,25 +1775,220 @@ theorem C16_side_conditions_checked :
     (∀ clauses f goals args, sldDefinedB clauses f goals args = true → SldDefined clauses f goals args) :=
   ⟨fun _ _ h => unifyDefined_of_B h, fun _ f goals args h => sldDefined_of_B f goals args h⟩
 
-/-! ## open statements
+/-! ## no position is answered twice
 
   Proved above for member/2, select/3, append/3: soundness and completeness for arbitrary
-  arguments.  Not proved: that no position is answered twice (the stream's oracle checks the
-  answer multiset against the positions by brute force). -/
+  arguments.  The three statements below ("no position answered twice") were open; they are proved
+  here for EVERY fuel and all arguments (no side condition), together with the stronger facts
+  * the split points of the answers of append/3 strictly increase (`C16_append_splits_increasing`),
+  * the exact number of answers under the side conditions of the completeness theorems
+    (`C16_member_count`, `C16_select_count`, `C16_append_count`). -/
 
 /-- member/2 on a proper list: at most one answer per position -/
 def C16_member_once_statement : Prop :=
   ∀ (fuel : Nat) (x : Term) (es : List Term) (ans : Answers),
     Rel.member fuel x (Term.list es) = .ok ans → ans.length ≤ es.length
 
+theorem C16_member_once : C16_member_once_statement := by
+  intro fuel x es ans h
+  unfold Rel.member at h
+  rw [clause_pairs.1] at h
+  cases h
+  exact member_len fuel es x _
+
+/-- the bound is attained, and the two answers may be the same tuple (an element that occurs twice
+    is answered twice: no `Nodup` of the answers of member/2) -/
+example : Rel.member 9 (.var 0) (Term.list [.atom "a", .atom "a"]) =
+    .ok [[.atom "a", Term.list [.atom "a", .atom "a"]], [.atom "a", Term.list [.atom "a", .atom "a"]]] := by
+  decide +kernel
+
 /-- select/3 on a proper list: at most one answer per position -/
 def C16_select_once_statement : Prop :=
   ∀ (fuel : Nat) (e r : Term) (es : List Term) (ans : Answers),
     Rel.select fuel e (Term.list es) r = .ok ans → ans.length ≤ es.length
 
+theorem C16_select_once : C16_select_once_statement := by
+  intro fuel e r es ans h
+  unfold Rel.select at h
+  rw [clause_pairs.2.1] at h
+  cases h
+  exact select_len fuel es e r _
+
+example : Rel.select 9 (.atom "a") (Term.list [.atom "a", .var 0, .atom "b"]) (Term.list [.var 1, .atom "b"]) =
+    .ok [[.atom "a", Term.list [.atom "a", .var 0, .atom "b"], Term.list [.var 0, .atom "b"]],
+         [.atom "a", Term.list [.atom "a", .atom "a", .atom "b"], Term.list [.atom "a", .atom "b"]]] := by
+  decide +kernel
+
 /-- append/3 splitting a proper list: every split once -/
 def C16_append_nodup_statement : Prop :=
   ∀ (fuel : Nat) (xs ys : Term) (zs : List Term) (ans : Answers),
     Rel.append fuel xs ys (Term.list zs) = .ok ans → ans.Nodup ∧ ans.length ≤ zs.length + 1
+
+/-- append/3 splitting a proper list, both code paths, any fuel, any first and second argument:
+    the split point (`splitAt`: the number of elements of the answer's first argument) strictly
+    increases from one answer to the next and never exceeds the length of the list -/
+theorem C16_append_splits_increasing {fuel : Nat} {xs ys : Term} {zs : List Term} {ans : Answers}
+    (h : Rel.append fuel xs ys (Term.list zs) = .ok ans) :
+    ans.Pairwise (fun s t => splitAt s < splitAt t) ∧ (∀ t ∈ ans, splitAt t ≤ zs.length) ∧
+      ans.length ≤ zs.length + 1 := by
+  unfold Rel.append at h
+  split at h
+  · rename_i hfast
+    cases h
+    have hxs : xs = Term.list xs.spine.1 := by
+      have : xs.spine.2 = Term.nilT := by
+        unfold appendFast at hfast
+        cases xs <;> simp_all
+      exact list_eq_of_spine rfl this
+    unfold unifyAns
+    split
+    · rename_i δ hδ
+      refine ⟨by simp, ?_, by simp⟩
+      intro t ht
+      simp only [List.mem_singleton] at ht
+      subst ht
+      have hs := unifyM_sound hδ
+      rw [substT_list, substT_list, substT_nilT] at hs
+      obtain ⟨r, hr, _⟩ := list_eq_list_tail hs
+      have hlen : zs.length = xs.spine.1.length + r.length := by
+        have := congrArg List.length hr
+        simpa using this
+      have : (substT δ xs).spine.1.length = xs.spine.1.length := by
+        conv => lhs; rw [hxs, substT_list, substT_nilT, spine_list_nil]
+        simp
+      simp only [List.map_cons, splitAt, this]
+      omega
+    · simp
+  · rw [clause_pairs.2.2] at h
+    cases h
+    have := append_keys fuel zs xs ys [] [ys, Term.list zs]
+    simp only [list_nil, List.length_nil, Nat.zero_add] at this
+    exact ⟨this.1, fun t ht => (this.2.1 t ht).2, this.2.2⟩
+
+theorem C16_append_nodup : C16_append_nodup_statement := by
+  intro fuel xs ys zs ans h
+  obtain ⟨hp, _, hl⟩ := C16_append_splits_increasing h
+  refine ⟨hp.imp ?_, hl⟩
+  intro s t hlt hst
+  subst hst
+  exact Nat.lt_irrefl _ hlt
+
+example : Rel.append 9 (.var 0) (.var 1) (Term.list [.atom "a", .atom "é"]) =
+    .ok [[Term.list [], Term.list [.atom "a", .atom "é"], Term.list [.atom "a", .atom "é"]],
+         [Term.list [.atom "a"], Term.list [.atom "é"], Term.list [.atom "a", .atom "é"]],
+         [Term.list [.atom "a", .atom "é"], Term.list [], Term.list [.atom "a", .atom "é"]]] := by
+  decide +kernel
+
+/-! ### the exact number of answers
+
+  `Unifiable a b`: the two terms have a common instance.  The side conditions are those of the
+  completeness theorems: `SldDefined` (every unification of the run finished within the unifier's
+  fuel) and enough fuel for the longest derivation. -/
+
+open Classical in
+/-- member/2 on a proper list answers once for EVERY element that unifies with the first argument,
+    and only for those: the number of answers is the number of such positions -/
+theorem C16_member_count {fuel : Nat} {x : Term} {es : List Term} {ans : Answers}
+    (h : Rel.member fuel x (Term.list es) = .ok ans)
+    (hdef : SldDefined memberClauses fuel [Term.a2 "member" x (Term.list es)] [x, Term.list es])
+    (hf : es.length < fuel) :
+    ans.length = es.countP (fun e => decide (Unifiable x e)) := by
+  unfold Rel.member at h
+  rw [clause_pairs.1] at h
+  cases h
+  exact member_count es fuel x _ hf hdef
+
+/-- the same count with the model's unifier as the (decidable) test -/
+theorem C16_member_count_computed {fuel : Nat} {x : Term} {es : List Term} {ans : Answers}
+    (h : Rel.member fuel x (Term.list es) = .ok ans)
+    (hdef : SldDefined memberClauses fuel [Term.a2 "member" x (Term.list es)] [x, Term.list es])
+    (hf : es.length < fuel) (hu : ∀ e ∈ es, UnifyDefined x e) :
+    ans.length = es.countP (fun e => (unifyM x e).isSome) := by
+  rw [C16_member_count h hdef hf]
+  apply List.countP_congr
+  intro e he
+  simp only [decide_eq_true_eq]
+  exact unifiable_iff_unifyM (hu e he)
+
+/-- f(X, b) against [f(a, Y), c, f(Z, Z)]: positions 0 and 2 unify, two answers -/
+example : Rel.member 9 (Term.a2 "f" (.var 0) (.atom "b"))
+      (Term.list [Term.a2 "f" (.atom "a") (.var 1), .atom "c", Term.a2 "f" (.var 2) (.var 2)]) =
+    .ok [[Term.a2 "f" (.atom "a") (.atom "b"),
+            Term.list [Term.a2 "f" (.atom "a") (.atom "b"), .atom "c", Term.a2 "f" (.var 2) (.var 2)]],
+         [Term.a2 "f" (.atom "b") (.atom "b"),
+            Term.list [Term.a2 "f" (.atom "a") (.var 1), .atom "c", Term.a2 "f" (.atom "b") (.atom "b")]]] := by
+  decide +kernel
+
+open Classical in
+example : ([Term.a2 "f" (.atom "a") (.var 1), .atom "c", Term.a2 "f" (.var 2) (.var 2)] : List Term).countP
+    (fun e => decide (Unifiable (Term.a2 "f" (.var 0) (.atom "b")) e)) = 2 :=
+  (C16_member_count (fuel := 9) rfl (sldDefined_of_B _ _ _ (by decide +kernel)) (by decide)).symm.trans
+    (by decide +kernel)
+
+open Classical in
+/-- select/3 on a proper list answers once for every position `i` that can be selected
+    (`SelectAt`: an instance of the call has its first argument at position `i` of the list and the
+    list without that position as its third argument) -/
+theorem C16_select_count {fuel : Nat} {e r : Term} {es : List Term} {ans : Answers}
+    (h : Rel.select fuel e (Term.list es) r = .ok ans)
+    (hdef : SldDefined selectClauses fuel [Term.a3 "select" e (Term.list es) r] [e, Term.list es, r])
+    (hf : es.length < fuel) :
+    ans.length = (List.range es.length).countP (fun i => decide (SelectAt e r es i)) := by
+  unfold Rel.select at h
+  rw [clause_pairs.2.1] at h
+  cases h
+  exact select_count es fuel e r _ hf hdef
+
+open Classical in
+/-- select(a, [a, X, b], [Y, b]): positions 0 and 1 can be selected, position 2 cannot -/
+example : (List.range 3).countP (fun i => decide
+    (SelectAt (.atom "a") (Term.list [.var 1, .atom "b"]) [.atom "a", .var 0, .atom "b"] i)) = 2 :=
+  (C16_select_count (fuel := 9) rfl (sldDefined_of_B _ _ _ (by decide +kernel)) (by decide)).symm.trans
+    (by decide +kernel)
+
+open Classical in
+/-- append/3 splitting a proper list answers once for every split point `k ≤ length` that is
+    compatible with the first two arguments (`AppendAt`), on both code paths -/
+theorem C16_append_count {fuel : Nat} {xs ys : Term} {zs : List Term} {ans : Answers}
+    (h : Rel.append fuel xs ys (Term.list zs) = .ok ans)
+    (hdef : if appendFast xs = true then UnifyDefined (Term.list zs) (Term.list xs.spine.1 ys)
+            else SldDefined appendClausePairs fuel [Term.a3 "append" xs ys (Term.list zs)] [xs, ys, Term.list zs])
+    (hf : zs.length + 1 < fuel) :
+    ans.length = (List.range (zs.length + 1)).countP (fun k => decide (AppendAt xs ys zs k)) := by
+  unfold Rel.append at h
+  split at h
+  · rename_i hfast
+    simp only [hfast, if_true] at hdef
+    cases h
+    have hxs : xs = Term.list xs.spine.1 := by
+      have : xs.spine.2 = Term.nilT := by
+        unfold appendFast at hfast
+        cases xs <;> simp_all
+      exact list_eq_of_spine rfl this
+    rw [unifyAns_length hdef]
+    conv => rhs; rw [hxs]
+    rw [appendAt_list_count]
+  · rename_i hfast
+    simp only [hfast] at hdef
+    rw [clause_pairs.2.2] at h
+    cases h
+    exact append_count fuel zs xs ys _ hf (by simpa using hdef)
+
+open Classical in
+/-- append([X|T], Y, [a, b]) (the two clauses): the splits after 1 and 2 elements, not the one after 0 -/
+example : (List.range 3).countP (fun k => decide
+    (AppendAt (Term.list [.var 0] (.var 1)) (.var 2) [.atom "a", .atom "b"] k)) = 2 :=
+  (C16_append_count (fuel := 9) (xs := Term.list [.var 0] (.var 1)) (ys := .var 2) (zs := [.atom "a", .atom "b"]) rfl
+    (by rw [if_neg (by decide +kernel)]; exact sldDefined_of_B _ _ _ (by decide +kernel)) (by decide)).symm.trans
+    (by decide +kernel)
+
+open Classical in
+/-- append([X, Y], Z, [a, b, c]) (the fast path): the single split after 2 elements -/
+example : (List.range 4).countP (fun k => decide
+    (AppendAt (Term.list [.var 0, .var 1]) (.var 2) [.atom "a", .atom "b", .atom "c"] k)) = 1 :=
+  (C16_append_count (fuel := 9) (xs := Term.list [.var 0, .var 1]) (ys := .var 2)
+    (zs := [.atom "a", .atom "b", .atom "c"]) rfl
+    (by rw [if_pos (by decide +kernel)]; exact unifyDefined_of_B (by decide +kernel)) (by decide)).symm.trans
+    (by decide +kernel)
 
 end PrologVerif.C16
